@@ -9,11 +9,12 @@
 (***************************************************************************)
 EXTENDS Session, Json
 CONSTANTS Emit, Mode,
-          Kj1, Kj2, Kj3, Kf1, Kf2, Kr1, Kr2, Ff1, Ff2      \* measured on the real jobs by the harness (context reads per render)
-MJobs == {"j1", "j2", "j3", "f1", "f2", "r1", "r2"}
-MK == [j1 |-> Kj1, j2 |-> Kj2, j3 |-> Kj3, f1 |-> Kf1, f2 |-> Kf2, r1 |-> Kr1, r2 |-> Kr2]
-MF == [j1 |-> NoFail, j2 |-> NoFail, j3 |-> NoFail, f1 |-> Ff1, f2 |-> Ff2, r1 |-> NoFail, r2 |-> NoFail]   \* f1 / f2 fail after that many reads
-HistJobs == {"j1", "j3", "f1", "f2", "r1", "r2"}
+          Kj1, Kj2, Kj3, Kf1, Kf2, Kr1, Kr2, Kc1, Kc2, Kc3, Ff1, Ff2      \* measured on the real jobs by the harness (context reads per render)
+MJobs == {"j1", "j2", "j3", "f1", "f2", "r1", "r2", "c1", "c2", "c3"}
+MK == [j1 |-> Kj1, j2 |-> Kj2, j3 |-> Kj3, f1 |-> Kf1, f2 |-> Kf2, r1 |-> Kr1, r2 |-> Kr2, c1 |-> Kc1, c2 |-> Kc2, c3 |-> Kc3]
+MF == [j1 |-> NoFail, j2 |-> NoFail, j3 |-> NoFail, f1 |-> Ff1, f2 |-> Ff2, r1 |-> NoFail, r2 |-> NoFail,
+       c1 |-> NoFail, c2 |-> NoFail, c3 |-> NoFail]   \* f1 / f2 fail after that many reads
+HistJobs == {"j1", "j3", "f1", "f2", "r1", "r2", "c1", "c2", "c3"}
 MThreads == IF Mode = "t3" THEN {"t1", "t2", "t3"} ELSE IF Mode = "t2" THEN {"t1", "t2"} ELSE {"t1"}
 MProgSet ==
   CASE Mode = "t2" -> {[t1 |-> <<"j1">>, t2 |-> <<"j2">>]}
